@@ -26,10 +26,106 @@ BUDGET = {'quick': {'examples': 6000, 'workers': 8},
 
 def strategy(tier):
     n = 18 if tier == 'quick' else 35
-    return st.fixed_dictionaries({'kind': st.sampled_from(['fs', 'fs', 'mapping', 'demo']),
-                                  # explicit transaction mode (transaction.TransactionManager(explicit=True))
-                                  'explicit': st.sampled_from([False, False, True]),
-                                  'ops': st.lists(objprog.op_strategy({'fail'}), min_size=3, max_size=n)})
+    plain = st.fixed_dictionaries({'kind': st.sampled_from(['fs', 'fs', 'mapping', 'demo']),
+                                   # explicit transaction mode (transaction.TransactionManager(explicit=True))
+                                   'explicit': st.sampled_from([False, False, True]),
+                                   'ops': st.lists(objprog.op_strategy({'fail'}), min_size=3, max_size=n)})
+    # the same outcomes for transactions that took savepoints (objects written before a savepoint and not
+    # touched again are stored - and reverted - through another path); new objects already saved by a
+    # savepoint are not used again after a failure (DESIGN 10.2 obs. 7)
+    from checks import c05_unfinished
+    saved = c05_unfinished.conn_strategy(tier).map(lambda c: {'kind': c['kind'], 'explicit': c['explicit'], 'ops': c['ops'],
+                                                             'savepoints': True})
+    # a connection of a multi-database: its secondary connections share its fate (close, reuse from the pool)
+    mop = st.one_of(st.tuples(st.just('set'), st.sampled_from(['main', 'other']), st.integers(1, 9)),
+                    st.tuples(st.just('set'), st.just('other'), st.integers(1, 9)),
+                    st.tuples(st.just('close')), st.tuples(st.just('close')),
+                    st.tuples(st.just('commit')), st.tuples(st.just('abort')), st.tuples(st.just('read'))).map(list)
+    multi = st.fixed_dictionaries({'mode': st.just('multidb'), 'kind': st.sampled_from(['fs', 'mapping']),
+                                   'ops': st.lists(mop, min_size=3, max_size=12)})
+    return st.integers(0, 99).flatmap(lambda r: saved if r < 25 else multi if r < 35 else plain)
+
+
+def execute_multidb(case):
+    """work through the primary and/or a secondary connection of a multi-database; close() is refused while either
+    has uncommitted changes; connections reused from the pool show committed state only"""
+    import transaction
+    import ZODB
+    from ZODB.POSException import ConnectionStateError
+    from vlib.vclasses import Node
+    out = Outcome()
+    out.evals = 0
+    clock.install()
+    locks.install()
+    clock.reset()
+    d = newdir()
+    dbs = {}
+    os.mkdir(os.path.join(d, 'm'))
+    os.mkdir(os.path.join(d, 'o'))
+    db = ZODB.DB(storage_factory(case['kind'], os.path.join(d, 'm'))(), databases=dbs, database_name='main')
+    db2 = ZODB.DB(storage_factory(case['kind'], os.path.join(d, 'o'))(), databases=dbs, database_name='other')
+    tm = transaction.TransactionManager()
+    conn = db.open(tm)
+    try:
+        for name in ('main', 'other'):
+            c = conn if name == 'main' else conn.get_connection('other')
+            c.root()['o'] = Node()
+            c.root()['o'].v = 0
+        tm.commit()
+        committed = {'main': 0, 'other': 0}
+        work = {}
+        for op in case['ops']:
+            k = op[0]
+            out.evals += 1
+            clock.CLOCK.advance(0.25)
+            if k == 'set':
+                c = conn if op[1] == 'main' else conn.get_connection('other')
+                c.root()['o'].v = op[2] * 10 + out.evals
+                work[op[1]] = op[2] * 10 + out.evals
+                if op[1] == 'other' and 'main' not in work:
+                    out.label('work-through-secondary-only')
+            elif k == 'commit':
+                tm.commit()
+                committed.update(work)
+                work = {}
+            elif k == 'abort':
+                tm.abort()
+                work = {}
+            elif k == 'read':
+                pass
+            elif k == 'close':
+                try:
+                    conn.close()
+                except ConnectionStateError:
+                    if not work:
+                        out.fail((PROPERTY, 'multidb-close', 'refused-outside-transaction'),
+                                 'close() raised ConnectionStateError although nothing is uncommitted')
+                        break
+                    out.label('close-refused')
+                else:
+                    if work:
+                        out.fail((PROPERTY, 'multidb-close', 'allowed-inside-transaction'),
+                                 'close() of the primary connection succeeded while %r has uncommitted changes' % sorted(work))
+                        break
+                    # reuse from the pool, under another transaction manager
+                    tm = transaction.TransactionManager()
+                    conn = db.open(tm)
+                    out.label('reopen')
+            got = {'main': conn.root()['o'].v, 'other': conn.get_connection('other').root()['o'].v}
+            exp = dict(committed, **work)
+            if got != exp:
+                out.fail((PROPERTY, 'multidb-state', 'mismatch'), 'after %r the connections read %r ; expected %r' % (op, got, exp))
+                break
+    finally:
+        try:
+            tm.abort()
+            db.close()
+            db2.close()
+        except Exception:           # noqa: B902
+            pass
+    out.label('multi-database', 'multi-' + case['kind'])
+    out.nontrivial = False
+    return out
 
 
 def storage_factory(kind, d):
@@ -46,13 +142,15 @@ def storage_factory(kind, d):
 
 
 def execute(case):
+    if case.get('mode') == 'multidb':
+        return execute_multidb(case)
     out = Outcome()
     out.evals = 0
     clock.install()
     locks.install()
     clock.reset()
     d = newdir()
-    w = objprog.World(storage_factory(case['kind'], d), out, PROPERTY, lenient_disowned=False,
+    w = objprog.World(storage_factory(case['kind'], d), out, PROPERTY, lenient_disowned=bool(case.get('savepoints')),
                       explicit=case.get('explicit', False))
     seen_abort = False
     nt = False
@@ -72,7 +170,8 @@ def execute(case):
                 nt = True
     finally:
         w.close()
-    out.label(case['kind'], *w.labels, *(['explicit-mode'] if case.get('explicit') else []))
+    out.label(case['kind'], *w.labels, *(['explicit-mode'] if case.get('explicit') else []),
+              *(['with-savepoints'] if case.get('savepoints') else []))
     out.nontrivial = nt
     return out
 
